@@ -110,7 +110,7 @@ Lemma create_context_esc c s txh svc provs cons inok capd capa timeout rep freq 
 Proof. unfold create_context. intros H. esc_frame H. Qed.
 
 Lemma exec_msg_esc c s txh m s' :
-  exec_msg c s txh m = Okk s' -> DepInv s ->
+  exec_msg_plain c s txh m = Okk s' -> DepInv s ->
   match m with MRespond _ _ _ | MWithdraw _ _ => True | _ => esc_same s s' end.
 Proof.
   intros H Hinv. destruct m; simpl in H; try exact I.
@@ -134,12 +134,16 @@ Qed.
 
 Theorem escrow_preserved_by_messages_lemma :
   forall c s st,
+    c_msvc c < 0 ->
     (match st with EndBlock _ => False | _ => True end) ->
     DepInv s -> EscEq s -> EscEq (apply c s st).
 Proof.
-  intros c s st Hst Hinv He. unfold apply. destruct (exec_step c s st) as [s'| |] eqn:E; try exact He.
-  destruct st; simpl in E; try contradiction.
-  - destruct m; try (pose proof (exec_msg_esc _ _ _ _ _ E Hinv) as Hs; simpl in Hs; eapply EscEq_same; [exact Hs|exact He]).
+  intros c s st Hm Hst Hinv He. unfold apply. destruct (exec_step c s st) as [s'| |] eqn:E; try exact He.
+  destruct st; cbn [exec_step] in E; try contradiction.
+  8: { change (exec_msg_plain c s 0 (MBind svc prov depd depa pr qos true owner) = Okk s') in E.
+       pose proof (exec_msg_esc _ _ _ _ _ E Hinv) as Hs. simpl in Hs. eapply EscEq_same; [exact Hs|exact He]. }
+  all: simpl in E.
+  - rewrite (exec_msg_plain_eq _ _ _ _ Hm) in E. destruct m; try (pose proof (exec_msg_esc _ _ _ _ _ E Hinv) as Hs; simpl in Hs; eapply EscEq_same; [exact Hs|exact He]).
     + simpl in E. eapply EscEq_respond; eassumption.
     + simpl in E. eapply EscEq_withdraw; eassumption.
   - inversion E; subst. eapply EscEq_same; [|exact He]. repeat split.
